@@ -387,7 +387,6 @@ Ltac bindT := repeat match goal with
   | |- context [bind ?g (rent_name rt rl ?n) (TUnit ?m)] => change (TUnit m) with (T (TUnit m))
   end.
 
-Set Default Timeout 100.
 Theorem typed_rent_all :
   (forall g sh A f, Typed teq D Sg g sh A f -> Typed teq D' Sg' (rentc g) (ro sh) (T A) (rent_form rt rl f)) /\
   (forall g bs b, TypedBrsR teq D Sg g bs b -> TypedBrsR teq D' Sg' (rentc g) (TB bs) (rent_branches rt rl b)) /\
@@ -447,4 +446,231 @@ Proof.
   - eapply brsL_cons with (bt := T bt) (hbt := T hbt); rw_rent; eauto with rent.
 Qed.
 End Judgement.
+(* ---------------------------------------------------------------- programs *)
+Definition rent_fun (f : fundef) : fundef :=
+  {| fn_name := fn_name f; fn_params := map rn (fn_params f); fn_body := rent_form rt rl (fn_body f);
+     fn_type := option_map T (fn_type f); fn_explicit := ro (fn_explicit f) |}.
+Definition rent_proc (q : procdef) : procdef :=
+  {| pr_body := rent_form rt rl (pr_body q); pr_providers := map rn (pr_providers q);
+     pr_type := option_map T (pr_type q) |}.
+
+Lemma rent_program_eq p : rent_program rt rl p =
+  {| p_procs := map rent_proc (p_procs p); p_assumed := map rn (p_assumed p);
+     p_funs := map rent_fun (p_funs p); p_types := rent_env rt rl (p_types p) |}.
+Proof. reflexivity. Qed.
+
+Lemma Forall2_map2 {A B} (R : A -> A -> Prop) (S : B -> B -> Prop) (f : A -> B) l l' :
+  (forall a a', R a a' -> S (f a) (f a')) -> Forall2 R l l' -> Forall2 S (map f l) (map f l').
+Proof. intros H. induction 1; cbn; constructor; auto. Qed.
+Lemma Forall_map_intro2 {A B} (P : A -> Prop) (Q : B -> Prop) (f : A -> B) l :
+  (forall a, P a -> Q (f a)) -> Forall P l -> Forall Q (map f l).
+Proof. intros H. induction 1; cbn; constructor; auto. Qed.
+
+Lemma elab_name_rent n n' : elab_name D n n' -> elab_name D' (rn n) (rn n').
+Proof.
+  intros [t [t' [E1 [E2 ->]]]]. exists (T t), (T t'). repeat split.
+  - cbn. now rewrite E1.
+  - now apply add_missing_rent.
+Qed.
+Lemma elab_fun_rent f f' : elab_fun D f f' -> elab_fun D' (rent_fun f) (rent_fun f').
+Proof.
+  intros [t [t' [ps' [E1 [E2 [E3 ->]]]]]]. exists (T t), (T t'), (map rn ps'). repeat split.
+  - cbn. now rewrite E1.
+  - now apply add_missing_rent.
+  - eapply Forall2_map2; eauto using elab_name_rent.
+Qed.
+Lemma elab_proc_rent q q' : elab_proc D q q' -> elab_proc D' (rent_proc q) (rent_proc q').
+Proof.
+  intros [t [t' [E1 [E2 ->]]]]. exists (T t), (T t'). repeat split.
+  - cbn. now rewrite E1.
+  - now apply add_missing_rent.
+Qed.
+
+Lemma typed_name_ok_rent n : typed_name_ok D n -> typed_name_ok D' (rn n).
+Proof. intros [t [Nt Wt]]. exists (T t). split; [cbn; now rewrite Nt|now rewrite check_wf_rent]. Qed.
+
+Lemma ctx_of_names_rent ns : ctx_of_names (map rn ns) = rentc (ctx_of_names ns).
+Proof.
+  unfold ctx_of_names. change (@nil (string * option sty)) with (rentc []) at 1. generalize (@nil (string * option sty)).
+  induction ns as [|n ns IH]; intros acc; cbn [map fold_left]; auto.
+  cbn [ident nty rent_name set_nty]. rewrite aset_rentc. apply IH.
+Qed.
+
+Lemma idents_rent (l : list name) : map ident (map rn l) = map ident l.
+Proof. rewrite map_map. reflexivity. Qed.
+
+Lemma proc_uses_rent q : proc_uses (rent_proc q) = map rn (proc_uses q).
+Proof.
+  unfold proc_uses. cbn [pr_body pr_providers rent_proc]. rewrite free_names_rent, idents_rent.
+  induction (free_names (pr_body q)) as [|n l IH]; cbn [map filter]; auto.
+  cbn [ident rent_name set_nty]. destruct (str_mem (ident n) (map ident (pr_providers q))); cbn; now rewrite IH.
+Qed.
+Lemma all_providers_rent ps : all_providers (map rent_proc ps) = all_providers ps.
+Proof.
+  unfold all_providers. induction ps as [|q ps IH]; cbn [map flat_map]; auto.
+  rewrite IH. cbn [pr_providers rent_proc]. now rewrite idents_rent.
+Qed.
+Lemma uses_rent ps : flat_map (fun q => map ident (proc_uses q)) (map rent_proc ps) =
+                     flat_map (fun q => map ident (proc_uses q)) ps.
+Proof.
+  induction ps as [|q ps IH]; cbn [map flat_map]; auto. rewrite IH, proc_uses_rent. now rewrite idents_rent.
+Qed.
+
+Definition rent_tn (m : list (string * name)) : list (string * name) := map (fun kv => (fst kv, rn (snd kv))) m.
+Lemma alookup_rent_tn x m : alookup x (rent_tn m) = option_map rn (alookup x m).
+Proof. unfold rent_tn. induction m as [|[k v] m IH]; cbn; auto. destruct (String.eqb x k); auto. Qed.
+Lemma aremove_rent_tn x m : aremove x (rent_tn m) = rent_tn (aremove x m).
+Proof. unfold rent_tn. induction m as [|[k v] m IH]; cbn; auto. destruct (String.eqb x k); cbn; now rewrite IH. Qed.
+Lemma aset_rent_tn x v m : aset x (rn v) (rent_tn m) = rent_tn (aset x v m).
+Proof.
+  unfold aset. change (rent_tn ((x, v) :: aremove x m)) with ((x, rn v) :: rent_tn (aremove x m)).
+  now rewrite aremove_rent_tn.
+Qed.
+
+Lemma top_names_rent ps assumed : top_names (map rent_proc ps) (map rn assumed) = rent_tn (top_names ps assumed).
+Proof.
+  unfold top_names.
+  assert (P : flat_map (fun q => map (fun n => (ident n, set_nty n (pr_type q))) (pr_providers q)) (map rent_proc ps)
+            = rent_tn (flat_map (fun q => map (fun n => (ident n, set_nty n (pr_type q))) (pr_providers q)) ps)).
+  { unfold rent_tn. induction ps as [|q ps IH]; cbn [map flat_map]; auto. rewrite IH, map_app.
+    cbn [pr_providers pr_type rent_proc]. rewrite !map_map. reflexivity. }
+  rewrite P. clear P.
+  assert (F1 : forall (l : list (string * name)) acc,
+            fold_left (fun m kv => aset (fst kv) (snd kv) m) (rent_tn l) (rent_tn acc) =
+            rent_tn (fold_left (fun m kv => aset (fst kv) (snd kv) m) l acc)).
+  { induction l as [|[k v] l IH]; intros acc; cbn [fold_left]; auto.
+    change (rent_tn ((k, v) :: l)) with ((k, rn v) :: rent_tn l). cbn [fold_left fst snd].
+    rewrite aset_rent_tn. apply IH. }
+  assert (F2 : forall (l : list name) acc,
+            fold_left (fun m a => aset (ident a) a m) (map rn l) (rent_tn acc) =
+            rent_tn (fold_left (fun m a => aset (ident a) a m) l acc)).
+  { induction l as [|a l IH]; intros acc; cbn [map fold_left]; auto.
+    change (ident (rn a)) with (ident a). rewrite aset_rent_tn. apply IH. }
+  change (@nil (string * name)) with (rent_tn (@nil (string * name))) at 1.
+  rewrite F1. apply F2.
+Qed.
+
+Lemma proc_ctx_rent ps assumed q :
+  proc_ctx (map rent_proc ps) (map rn assumed) (rent_proc q) = rentc (proc_ctx ps assumed q).
+Proof.
+  unfold proc_ctx. rewrite proc_uses_rent, top_names_rent, <- ctx_of_names_rent. f_equal.
+  induction (proc_uses q) as [|fn l IH]; cbn [map flat_map]; auto.
+  change (ident (rn fn)) with (ident fn). rewrite alookup_rent_tn, IH.
+  destruct (alookup (ident fn) (top_names ps assumed)); reflexivity.
+Qed.
+
+Lemma sig_of_rent f s : sig_of D f s -> sig_of D' (rent_fun f) (rent_sig s).
+Proof.
+  intros [E1 [E2 [t [h [Ft [Hh Es]]]]]]. split; [|split]; cbn; [exact E1|now rewrite E2|].
+  exists (T t), (T h). repeat split; [now rewrite Ft|now apply head_rent|now rewrite Es].
+Qed.
+
+Section Prog.
+Variable teq : tenv -> sty -> sty -> Prop.
+Hypothesis teq_rent : forall s t, teq D s t -> teq D' (T s) (T t).
+
+Lemma FunOK_rent Sg f : FunOK teq D Sg f -> FunOK teq D' (map rent_sig Sg) (rent_fun f).
+Proof.
+  intros [N Tp [t [Ft [Wt [I Ty]]]]]. constructor; cbn [fn_params fn_type fn_body rent_fun].
+  - now rewrite idents_rent.
+  - eapply Forall_map_intro2; eauto using typed_name_ok_rent.
+  - exists (T t). repeat split.
+    + now rewrite Ft.
+    + now rewrite check_wf_rent.
+    + intros p tp Hp Np. apply in_map_iff in Hp. destruct Hp as [m [<- Hm]]. cbn in Np.
+      destruct (nty m) as [tm|] eqn:Nm; [|discriminate]. cbn in Np. inversion Np; subst tp.
+      rewrite !mode_of_rent. eapply I; eauto.
+    + rewrite ctx_of_names_rent. apply (proj1 (typed_rent_all teq teq_rent Sg) _ None _ _ Ty).
+Qed.
+
+Lemma ProcOK_rent Sg all assumed q : ProcOK teq D Sg all assumed q ->
+  ProcOK teq D' (map rent_sig Sg) (map rent_proc all) (map rn assumed) (rent_proc q).
+Proof.
+  intros [[t [Pt [Wt [C Ty]]]]]. constructor. exists (T t). repeat split.
+  - cbn. now rewrite Pt.
+  - now rewrite check_wf_rent.
+  - cbn [pr_providers rent_proc]. rewrite map_length, mode_of_rent. exact C.
+  - rewrite proc_ctx_rent. apply (proj1 (typed_rent_all teq teq_rent Sg) _ None _ _ Ty).
+Qed.
+End Prog.
 End TypeRenaming.
+
+(* ---------------------------------------------------------------- ProgOK *)
+(* the type-equality relation is invariant under the renaming (true of bisimilarity) *)
+Definition teq_equivariant (teq : tenv -> sty -> sty -> Prop) (rt rl : string -> string) : Prop :=
+  forall D s t, teq D s t -> teq (rent_env rt rl D) (rent_ty rt rl s) (rent_ty rt rl t).
+
+Theorem typing_equivariant_types_inj teq rt rl p :
+  (forall a b, rt a = rt b -> a = b) -> (forall a b, rl a = rl b -> a = b) -> teq_equivariant teq rt rl ->
+  ProgOK teq p -> ProgOK teq (rent_program rt rl p).
+Proof.
+  intros Ht Hl Heq [pe [[ET [EF [EP EA]]] [SD NF [Sg [SO [FO PO]]] NA TA NP DJ U1 U2 U3]]].
+  exists (rent_program rt rl pe). split.
+  - rewrite !rent_program_eq. repeat split; cbn [p_types p_funs p_procs p_assumed].
+    + now rewrite ET.
+    + eapply Forall2_map2; [|exact EF]. intros a a'. apply elab_fun_rent; auto.
+    + eapply Forall2_map2; [|exact EP]. intros a a'. apply elab_proc_rent; auto.
+    + eapply Forall2_map2; [|exact EA]. intros a a'. apply elab_name_rent; auto.
+  - rewrite rent_program_eq. constructor; cbn [p_types p_funs p_procs p_assumed].
+    + now rewrite sanity_rent.
+    + rewrite map_map. cbn [fn_name rent_fun]. exact NF.
+    + exists (map (rent_sig rt rl) Sg). repeat split.
+      * clear - SO Ht Hl. induction SO; cbn; constructor; auto using sig_of_rent.
+      * eapply Forall_map_intro2; [|exact FO]. intros f. apply FunOK_rent; auto.
+      * eapply Forall_map_intro2; [|exact PO]. intros q. apply ProcOK_rent; auto.
+    + now rewrite idents_rent.
+    + eapply Forall_map_intro2; [|exact TA]. intros n. apply typed_name_ok_rent; auto.
+    + now rewrite all_providers_rent.
+    + rewrite all_providers_rent, idents_rent. exact DJ.
+    + now rewrite uses_rent.
+    + rewrite uses_rent, all_providers_rent, idents_rent. exact U2.
+    + rewrite uses_rent, idents_rent. exact U3.
+Qed.
+
+(* ---------------------------------------------------------------- the converse, for bijections *)
+Section InverseTypes.
+Variables rt rt' rl rl' : string -> string.
+Hypothesis rt'_rt : forall x, rt' (rt x) = x.
+Hypothesis rl'_rl : forall x, rl' (rl x) = x.
+
+Lemma rent_ty_inv_all :
+  (forall t, rent_ty rt' rl' (rent_ty rt rl t) = t) /\ (forall b, rent_brs rt' rl' (rent_brs rt rl b) = b).
+Proof. apply sty_brs_ind; intros; cbn; rewrite ?rt'_rt, ?rl'_rl; congruence. Qed.
+Lemma rent_oty_inv (o : option sty) : option_map (rent_ty rt' rl') (option_map (rent_ty rt rl) o) = o.
+Proof. destruct o; cbn; auto. now rewrite (proj1 rent_ty_inv_all). Qed.
+Lemma rent_name_inv n : rent_name rt' rl' (rent_name rt rl n) = n.
+Proof. destruct n. unfold rent_name, set_nty. cbn. now rewrite rent_oty_inv. Qed.
+Lemma map_rent_name_inv l : map (rent_name rt' rl') (map (rent_name rt rl) l) = l.
+Proof. rewrite map_map. rewrite <- (map_id l) at 2. apply map_ext. apply rent_name_inv. Qed.
+Lemma rent_form_inv_all :
+  (forall f, rent_form rt' rl' (rent_form rt rl f) = f) /\ (forall b, rent_branches rt' rl' (rent_branches rt rl b) = b).
+Proof.
+  apply form_branches_ind; intros; cbn [rent_form rent_branches];
+    rewrite ?rent_name_inv, ?map_rent_name_inv, ?rl'_rl, ?rent_oty_inv; congruence.
+Qed.
+Lemma rent_program_inv p : rent_program rt' rl' (rent_program rt rl p) = p.
+Proof.
+  destruct p as [ps asm fs ts]. unfold rent_program. cbn. f_equal.
+  - rewrite map_map. rewrite <- (map_id ps) at 2. apply map_ext. intros [b pr t]. cbn.
+    now rewrite (proj1 rent_form_inv_all), map_rent_name_inv, rent_oty_inv.
+  - apply map_rent_name_inv.
+  - rewrite map_map. rewrite <- (map_id fs) at 2. apply map_ext. intros [n ps' b t e]. cbn.
+    rewrite (proj1 rent_form_inv_all), map_rent_name_inv, rent_oty_inv. f_equal. destruct e; cbn; auto. now rewrite rent_name_inv.
+  - rewrite map_map. rewrite <- (map_id ts) at 2. apply map_ext. intros [n b m]. cbn.
+    now rewrite (proj1 rent_ty_inv_all), rt'_rt.
+Qed.
+End InverseTypes.
+
+Definition bijection_t (r r' : string -> string) : Prop := (forall x, r' (r x) = x) /\ (forall x, r (r' x) = x).
+Lemma bijection_t_inj (r r' : string -> string) : (forall x, r' (r x) = x) -> forall a b, r a = r b -> a = b.
+Proof. intros H a b E. rewrite <- (H a), <- (H b). now rewrite E. Qed.
+
+Theorem typing_equivariant_types teq rt rt' rl rl' p : bijection_t rt rt' -> bijection_t rl rl' ->
+  teq_equivariant teq rt rl -> teq_equivariant teq rt' rl' ->
+  (ProgOK teq p <-> ProgOK teq (rent_program rt rl p)).
+Proof.
+  intros [A1 A2] [B1 B2] E1 E2. split.
+  - apply typing_equivariant_types_inj; auto; eapply bijection_t_inj; eauto.
+  - intros OK. rewrite <- (rent_program_inv rt rt' rl rl' A1 B1 p).
+    apply typing_equivariant_types_inj; auto; eapply bijection_t_inj; eauto.
+Qed.
